@@ -95,9 +95,12 @@ class Ctx:
         self.assumes.append(_b(c))
 
     # ---- obligations
-    def oblige(self, name: str, claim: Any, kind: str = "claim", info: Any = None) -> None:
+    def oblige(self, name: str, claim: Any, kind: str = "claim", info: Any = None, tol: Any = None) -> None:
+        """tol: a weaker claim (equalities to 1e-9 relative) tried when the exact claim is refuted - float
+        constants that come out of the source already rounded (8**-0.5) are exact rationals here."""
         self.obligations.append({"name": name, "claim": _b(claim), "path": list(self.path),
-                                 "ndefs": len(self.defs), "kind": kind, "info": info})
+                                 "ndefs": len(self.defs), "kind": kind, "info": info,
+                                 "tol": _b(tol) if tol is not None else None})
 
     def background(self, ndefs: Optional[int] = None) -> List[Any]:
         d = self.defs if ndefs is None else self.defs[:ndefs]
@@ -267,6 +270,10 @@ class SInt:
 
     def __hash__(self) -> int:
         return hash(self.e)
+
+    def __bool__(self) -> bool:
+        r = self != 0
+        return bool(r)
 
     def __repr__(self) -> str:
         return f"SInt({self.e})"
@@ -466,6 +473,11 @@ class SReal:
             return float(self.const)
         raise TypeError("symbolic real -> float")
 
+    def __bool__(self) -> bool:
+        if self.const is not None:
+            return self.const != 0
+        return bool(SBool(self.z != 0))
+
     def _c(self, o: Any) -> Optional[Fraction]:
         return o.const if isinstance(o, SReal) else None
 
@@ -587,8 +599,9 @@ def sym_pow(base: Any, p: Any) -> Any:
         key = (b.z.get_id(), den)
         if key not in c.roots:
             if den % 2 == 0:
-                c.oblige(f"definedness: radicand {z3.simplify(b.z)} >= 0 for **{f}", b.z >= 0, kind="definedness")
-            rv = c.fresh("root")
+                c.oblige(f"definedness: radicand {z3.simplify(b.z)} >= 0", b.z >= 0, kind="definedness")
+            c.n += 1
+            rv = z3.Real(f"root{den}[{z3.simplify(b.z)}]")
             c._keep.append(b.z)
             c.defs += [rv >= 0 if den % 2 == 0 else z3.BoolVal(True), z3.Product([rv] * den) == b.z]
             if den % 2 == 1:
@@ -701,8 +714,12 @@ def integer_model(c: Ctx, cs: List[Any], model: Any, timeout_s: float = 20.0) ->
     """Turn a relaxed model into one where every dimension symbol is an integer (needed for replay)."""
     dims = list(c.dims.items())
     vals = {n: model.eval(v, model_completion=True) for n, v in dims}
-    if all(z3.is_int_value(x) or (z3.is_rational_value(x) and x.denominator_as_long() == 1) for x in vals.values()):
+    def _small(x: Any) -> bool:
+        return (z3.is_int_value(x) or (z3.is_rational_value(x) and x.denominator_as_long() == 1)) and abs(x.numerator_as_long()) <= 64
+
+    if all(_small(x) for x in vals.values()):
         return _model_dict(c, model)
+    all_int = all(z3.is_rational_value(x) and x.denominator_as_long() == 1 for x in vals.values())
     s = z3.Solver()
     s.set("timeout", int(timeout_s * 1000))
     s.add(*cs)
@@ -717,6 +734,8 @@ def integer_model(c: Ctx, cs: List[Any], model: Any, timeout_s: float = 20.0) ->
         if str(s.check()) == "sat":
             return _model_dict(c, s.model())
         s.pop()
+    if all_int:
+        return _model_dict(c, model)
     if str(s.check()) == "sat":
         return _model_dict(c, s.model())
     return None
@@ -757,3 +776,14 @@ def explore(harness: Callable[[Ctx], Any], max_paths: int = 256) -> List[Tuple[C
         work.extend(c.alternatives)
         out.append((c, res, exc))
     return out
+
+
+REL = z3.Q(1, 10 ** 9)
+
+
+def approx(a: Any, b: Any) -> Any:
+    """|a - b| <= 1e-9 * |b|  (z3)"""
+    a = a.z if isinstance(a, SReal) else a
+    b = b.z if isinstance(b, SReal) else b
+    ab = z3.If(b >= 0, b, -b)
+    return z3.And(a - b <= REL * ab, b - a <= REL * ab)
